@@ -1,6 +1,7 @@
 import EinxModel.IR.Generic
 /-
-M5 (extended primitive table): reductions, einsum, matmul, flip, roll on top of `Instr`.
+M5 (extended primitive table): reductions, einsum, matmul, flip, roll, argmax/argmin, sort/argsort, arange,
+take on top of `Instr`.
 
 Permutation-invariant reductions are modelled as an uninterpreted function `red:<f>` applied to the
 *sorted* list of the reduced cells (a canonical representative of the multiset); a reduction or product
@@ -56,6 +57,10 @@ inductive InstrX where
   | matmul (x y : Nat)
   | flip (x : Nat) (axes : List Nat)
   | roll (x : Nat) (shifts : List Int) (axes : List Nat)
+  | argfind (f : String) (x axis : Nat)      -- `np.argmax` / `np.argmin` along one axis (`f` = "argmax" | "argmin")
+  | sortAxis (f : String) (x axis : Nat)     -- `np.sort` / `np.argsort` along one axis (`f` = "sort" | "argsort")
+  | arange (n : Nat)                         -- `np.arange(n)`
+  | take (x idx : Nat)                       -- `np.take(x, idx)`: `x` is read in flattened (row-major) order
 deriving Repr, Inhabited
 
 /-- All multi-indices of a shape, row-major. -/
@@ -132,5 +137,31 @@ def planInstrX (shapes : List (List Nat)) : InstrX → E Plan
     pure (tabulate sx (fun o =>
       .src x (ravel sx ((List.zip o sx).zipIdx.map (fun ((i, d), a) =>
         if d == 0 then 0 else ((((i : Int) - shiftOf a) % (d : Int)).toNat))))))
+  | .argfind f x axis => do
+    -- The index of the first extremum is a function of the *ordered* line of values: the cell is the
+    -- uninterpreted symbol `f` applied to the cells of the line in order (no sorting).
+    let sx ← getShape shapes x
+    if axis ≥ sx.length then throw "argfind: invalid axis"
+    let n := sx.getD axis 0
+    if n == 0 then throw "argfind: empty axis"
+    pure (tabulate (removeAt sx axis) (fun o =>
+      .app f ((List.range n).map (fun i => .src x (ravel sx (o.take axis ++ [i] ++ o.drop axis))))))
+  | .sortAxis f x axis => do
+    -- Output position `j` along `axis` is the symbol `f:j` (j-th smallest / index of the j-th smallest)
+    -- applied to the cells of the line in order.
+    let sx ← getShape shapes x
+    if axis ≥ sx.length then throw "sort: invalid axis"
+    let n := sx.getD axis 0
+    pure (tabulate sx (fun o =>
+      .app (f ++ ":" ++ toString (o.getD axis 0)) ((List.range n).map (fun i => .src x (ravel sx (o.set axis i))))))
+  | .arange n => pure ⟨[n], (List.range n).map (fun i => .lit (Int.ofNat i))⟩
+  | .take x idx => do
+    -- Data-dependent read: the symbol `take` applied to the index cell followed by all cells of the
+    -- flattened source (meaning: select by the integer value of the first argument).
+    let sx ← getShape shapes x
+    let si ← getShape shapes idx
+    if prod sx == 0 && prod si != 0 then throw "take: cannot take from an empty tensor"
+    let all := (List.range (prod sx)).map (fun k => Cell.src x k)
+    pure ⟨si, (List.range (prod si)).map (fun k => .app "take" (.src idx k :: all))⟩
 
 end Einx.IR
